@@ -131,6 +131,9 @@ class LegacyWorld:
     def on_object_written(self, key, rec):
         pass
 
+    def on_bytes_moved(self, kind, ident, n):
+        pass
+
     def _dest_invariant(self, fs, op, path):
         t = self.t
         if t['op'] != 'download' or path != t['path']:
